@@ -1,4 +1,5 @@
 import RxProofs.Lemmas.OpsElem
+import RxModel.OpsVal
 /-!
 # C05 — element-wise operators match their list semantics
 
@@ -226,10 +227,58 @@ theorem find_index_pure (lag : Bool) (q : α → Nat → Bool) (raw : List (Noti
   rw [find_index_eq, refFind_pure]
   cases ((elems raw).zipIdx 0).find? (fun t => q t.1 t.2) <;> rfl
 
-/-- `starmap(f) = map(lambda t: f(*t))` and `pluck(k) = map(lambda d: d[k])` are `map` instances:
-`unpack`/`get` are the (possibly raising: `TypeError`, `KeyError`) argument adapters. -/
-theorem starmap_eq (lag : Bool) (starred : α → Except Err β) (raw : List (Notif α)) :
-    visible ((mapOp starred).run lag raw) = refMap starred (elems raw) (fin raw) := map_eq lag starred raw
+/-! `starmap(mapper) = map(lambda values: mapper(*values))` and `pluck(key) = map(lambda x: x[key])` with the
+argument adapters modelled on the value grammar (`RxModel/OpsVal.lean`). -/
+
+theorem starmap_eq (lag : Bool) (mapper : Option (List Val → Except Err Val)) (raw : List (Notif Val)) :
+    visible ((starmapOp mapper).run lag raw) = refMap (starred mapper) (elems raw) (fin raw) :=
+  map_eq lag (starred mapper) raw
+
+/-- on tuples `starmap(f)` is `[f(*t) for t in ts]` (stopping at the first raise) -/
+theorem starmap_tuples (lag : Bool) (f : List Val → Except Err Val) (raw : List (Notif Val)) (tss : List (List Val))
+    (h : elems raw = tss.map Val.tup) :
+    visible ((starmapOp (some f)).run lag raw) = refMap f tss (fin raw) := by
+  rw [starmap_eq, h]
+  clear h
+  generalize fin raw = e
+  induction tss with
+  | nil => rfl
+  | cons ts tss ih => simp only [List.map_cons, refMap, starred, starArgs]; cases f ts <;> simp [ih]
+
+/-- `starmap()` without a mapper passes every element through -/
+theorem starmap_identity (lag : Bool) (raw : List (Notif Val)) :
+    visible ((starmapOp none).run lag raw) = outSeq (elems raw) (fin raw) := by
+  rw [starmap_eq]
+  have : starred none = fun v => Except.ok (id v) := rfl
+  rw [this, refMap_pure]; simp
+
+/-- a value that cannot be unpacked (`None`, a number, a bool) ends the sequence with `TypeError` -/
+theorem starmap_not_iterable (f : List Val → Except Err Val) (v : Val)
+    (hv : v = .none ∨ (∃ i, v = .int i) ∨ (∃ b, v = .bool b) ∨ (∃ s, v = .flt s)) :
+    starred (some f) v = .error "TypeError" := by
+  rcases hv with h | ⟨i, h⟩ | ⟨b, h⟩ | ⟨s, h⟩ <;> subst h <;> rfl
+
+theorem pluck_eq (lag : Bool) (key : Val) (raw : List (Notif Val)) :
+    visible ((pluckOp key).run lag raw) = refMap (pluckGet key) (elems raw) (fin raw) :=
+  map_eq lag (pluckGet key) raw
+
+/-- a dict without the key ends the sequence with `KeyError` … -/
+theorem pluck_missing_key (key : Val) (kvs : List (Val × Val)) (hk : key.hashable = true)
+    (hm : kvs.find? (fun kv => Val.pyEq kv.1 key) = none) :
+    pluckGet key (.dct kvs) = .error "KeyError" := by
+  simp [pluckGet, hk, hm]
+
+/-- … and one with the key yields its value, whatever it is (`None`, `0`, `''` … included) -/
+theorem pluck_found (key : Val) (kvs : List (Val × Val)) (kv : Val × Val) (hk : key.hashable = true)
+    (hm : kvs.find? (fun kv => Val.pyEq kv.1 key) = some kv) :
+    pluckGet key (.dct kvs) = .ok kv.2 := by
+  simp [pluckGet, hk, hm]
+
+/-- `None` and numbers are not subscriptable -/
+theorem pluck_not_subscriptable (key : Val) (v : Val)
+    (hv : v = .none ∨ (∃ i, v = .int i) ∨ (∃ b, v = .bool b) ∨ (∃ s, v = .flt s)) :
+    pluckGet key v = .error "TypeError" := by
+  rcases hv with h | ⟨i, h⟩ | ⟨b, h⟩ | ⟨s, h⟩ <;> subst h <;> rfl
 
 theorem materialize_eq (lag : Bool) (raw : List (Notif α)) :
     visible ((materializeOp (α := α)).run lag raw) = refMaterialize (elems raw) (fin raw) := by
@@ -289,6 +338,36 @@ theorem butLastN_take_succ (n : Nat) (xs : List α) (k : Nat) (hk : k < xs.lengt
     have a1 : min (k + 1 - n) (k + 1) = 0 := by omega
     have a2 : min (k - n) k = 0 := by omega
     rw [a1, a2]; simp
+
+/-- **take_timed.** `take(n)` completes during the handler call of the `n`-th element (not later, not at
+the source's own completion). -/
+theorem take_timed (lag : Bool) (n : Nat) (xs : List α) (rest : List (Notif α)) (hn : n < xs.length) :
+    emittedAt ((takeOp (n + 1)).run lag (xs.map .next ++ rest)) n = [.next xs[n], .completed] := by
+  have e1 := take_map_next_append xs rest n (by omega)
+  have e2 := take_map_next_append xs rest (n + 1) (by omega)
+  rw [emitted_at, e1, e2, sem_take, sem_take]
+  simp only [elems_map_next, fin_map_next, List.length_take]
+  have h1 : ¬ (n + 1 ≤ min n xs.length) := by omega
+  have h2 : n + 1 ≤ min (n + 1) xs.length := by omega
+  rw [if_neg h1, if_pos h2, List.take_take, List.take_take]
+  have h3 : min (n + 1) n = n := by omega
+  have h4 : min (n + 1) (n + 1) = n + 1 := by omega
+  rw [h3, h4]
+  simp only [outSeq, End.toNotifs, List.append_nil]
+  rw [take_succ_getElem xs n hn, List.map_append, List.append_assoc]
+  simp
+
+/-- **filter_timed.** An element that passes the predicate is delivered during its own handler call; one that
+does not produces nothing. -/
+theorem filter_timed (lag : Bool) (q : α → Bool) (xs : List α) (rest : List (Notif α)) (k : Nat) (hk : k < xs.length) :
+    emittedAt ((filterOp (fun x => .ok (q x))).run lag (xs.map .next ++ rest)) k
+      = if q xs[k] then [.next xs[k]] else [] := by
+  have e1 := take_map_next_append xs rest k (by omega)
+  have e2 := take_map_next_append xs rest (k + 1) (by omega)
+  rw [emitted_at, e1, e2, sem_filter, sem_filter, refFilter_pure, refFilter_pure]
+  simp only [elems_map_next, fin_map_next, outSeq, End.toNotifs, List.append_nil]
+  rw [take_succ_getElem xs k hk, List.filter_append, drop_nexts]
+  cases hq : q xs[k] <;> simp [hq]
 
 /-- **skip_last_timed.** With `skip_last(n)`, the `i`-th output is delivered at the arrival of element
 `i+n`: during the handler call of element `k` the element `k-n` is emitted (nothing while `k < n`). -/
